@@ -336,6 +336,20 @@ def check_aec(run, rule):
             ok = len(incs) == 1 and len(ins) == 1 and "m_address_event_counts" in show(ins[0]["lhs"])
             why = "hit increments the stored count, miss inserts 1" if ok else \
                 "aggregation branches: %d increment(s) on hit, %d insert-of-1 on miss" % (len(incs), len(ins))
+        if hit is None:
+            # the other spelling of the same aggregation: `++map[key]` (operator[] value-initialises a new count to 0)
+            def on_map_elem(e_):
+                u_ = unwrap(e_)
+                return isinstance(u_, dict) and u_.get("k") == "OpCall" and u_.get("op") == "[]" and u_.get("args") and \
+                    (path(u_["args"][0]) or ())[-1:] == ("m_address_event_counts",)
+            direct = [x for x in ir.walk(f["body"]) if (x.get("k") == "Un" and x.get("op") in ("post++", "pre++") and on_map_elem(x.get("e"))) or
+                      (x.get("k") == "Bin" and x.get("op") == "+=" and const_value(x["rhs"]) == 1 and on_map_elem(x["lhs"]))]
+            other = [x for x in ir.walk(f["body"]) if x.get("k") == "Bin" and x.get("op") in ("=", "-=", "*=") and on_map_elem(x["lhs"])] + \
+                    [x for x in ir.walk(f["body"]) if x.get("k") == "Un" and x.get("op") in ("post--", "pre--") and on_map_elem(x.get("e"))]
+            if len(direct) == 1 and not other:
+                ok = True
+                why = "the count stored under the event's key is incremented once (a new key starts at 0)"
+                hit = direct[0]
         run.ob(rule, tag + ":aggregate", ok, f, hit["l"] if hit else f["line"], why)
     bw = facts.fn("CDNS::CdnsBlock::write", rule=rule)
     ok = False
